@@ -95,16 +95,21 @@ class ParserState:
                 matched = False
 
                 if whitespace_rule:
+                    self.checkpoint()
                     matched = whitespace_rule.parse(self, children)
                     if matched:
                         some = True
                         pairs.extend(children)
-                        # continue
+                        self.ok()
+                    else:
+                        self.restore()
                     children.clear()
+                    if matched:
+                        continue
 
                 if comment_rule:
                     self.checkpoint()
-                    matched = comment_rule.parse(self, children) or matched
+                    matched = comment_rule.parse(self, children)
                     if matched:
                         some = True
                         pairs.extend(children)
